@@ -297,23 +297,24 @@ def to_xir(prog: Program, **kwargs) -> xir.Program:
             params = []
             for i, a in enumerate(cmd.op.p):
                 if sfpar.par_is_symbolic(a):
-                    # try to evaluate symbolic parameter
-                    try:
+                    if not a.atoms(sfpar.MeasuredParameter, sfpar.FreeParameter):
+                        # a constant symbolic expression: evaluate it. Expressions of free or
+                        # measured parameters are written as such, also when the parameters
+                        # currently have a value (bound arguments, outcomes of an earlier run)
                         a = sfpar.par_evaluate(a)
-                    except sfpar.ParameterError:
-                        # if a tdm param
-                        if a in getattr(prog, "loop_vars", ()):
-                            a = a.name
-                        # if a pure symbol (free parameter), convert to string
-                        elif a.is_symbol:
-                            a = a.name
-                        # else, assume it's a symbolic function and replace all free parameters
-                        # with string representations
-                        else:
-                            symbolic_func = a.copy()
-                            for s in symbolic_func.free_symbols:
-                                symbolic_func = symbolic_func.subs(s, s.name)
-                            a = str(symbolic_func)
+                    # if a tdm param
+                    elif a in getattr(prog, "loop_vars", ()):
+                        a = a.name
+                    # if a pure symbol (free parameter), convert to string
+                    elif a.is_symbol:
+                        a = a.name
+                    # else, assume it's a symbolic function and replace all free parameters
+                    # with string representations
+                    else:
+                        symbolic_func = a.copy()
+                        for s in symbolic_func.free_symbols:
+                            symbolic_func = symbolic_func.subs(s, s.name)
+                        a = str(symbolic_func)
 
                 elif isinstance(a, str):
                     pass
